@@ -253,7 +253,11 @@ def handleLayout (j : Json) : Except String Json := do
     | .error e => return encStructErr e
   | "out" =>
     match provideOutputLayout own parents style fields with
-    | .ok l => return Json.mkObj [("crown", encOutCrown l.crown), ("move", encOutMove l.move)]
+    | .ok l =>
+      -- the well-formedness hypothesis of the dumper theorems, evaluated on the crown just built
+      let cfg : DumpCfg := { mode := .disable, move := l.move, fields, dumper := fun _ v => .ok v, extracted := .ok (.dict []) }
+      return Json.mkObj [("crown", encOutCrown l.crown), ("move", encOutMove l.move),
+        ("wf", Json.bool (l.crown.wf cfg))]
     | .error e => return encStructErr e
   | d => throw s!"bad dir {d}"
 
